@@ -31,6 +31,8 @@ ASSUMPTIONS = [
     "explicit equality only when the model's set has <= 5000 elements",
 ]
 BUDGET = {"quick": 700, "thorough": 14000}
+# coverage-guided twins (thorough tier): part name -> executions per shard; see core.cover
+COVER = {"offsets": 2500}
 
 
 def _check_offset(b: typing.Any, tree: typing.Any, counters: typing.Dict[str, int], what: str) -> None:
